@@ -11,7 +11,9 @@
            created so far (modulo their number)
      oldk  0: the entity's current version, k > 0: k versions behind, < 0: version 0
      typk  >= 0: that event type, < 0: the stored type
-     name  "": keep the current name                                                   *)
+     name  "": keep the current name
+   and of a mapping deletion:  DelTop n  = the n newest ids, n = 0: every id above the
+   global budget.                                                                      *)
 EXTENDS MetaDB
 VARIABLE script      \* the operations still to run
 Scripts == ndJsonDeserialize("scripts.ndjson")    \* read once, in SInit
@@ -31,6 +33,10 @@ SReq(o) == LET i == EntId(o.idk)
            IN [name |-> NameOf(i, o.name), id |-> i, old |-> OldOf(i, o.oldk), data |-> o.data, create |-> o.create,
                del |-> o.del, typ |-> TypOf(i, o.typk), meta |-> o.meta]
 ToSet(s) == {s[i] : i \in DOMAIN s}
+(* "delete the newest mappings": the n largest ids present; n = 0 means every id above the global budget *)
+PresentIds == {p.id : p \in db.maps}
+TopIds(n) == IF n = 0 THEN {i \in PresentIds : i > GlobalBudget}
+             ELSE {i \in PresentIds : Cardinality({j \in PresentIds : j > i}) < n}
 
 SInit == /\ Init
          /\ LET S == Scripts IN script \in {S[s].ops : s \in DOMAIN S}
@@ -41,6 +47,7 @@ SNext == /\ script # <<>>
               [] o.a = "Goc"   -> GetOrCreate(o.metric, o.key)
               [] o.a = "Put"   -> PutMapping(o.ks, o.vs)
               [] o.a = "Del"   -> DeleteMappings(ToSet(o.ids))
+              [] o.a = "DelTop" -> DeleteMappings(TopIds(o.n))
               [] o.a = "Reset" -> ResetFlood(o.metric, o.limit)
               [] o.a = "Boot"  -> PutBootstrap(o.ms)
               [] o.a = "Tick"  -> Advance(o.d)
